@@ -1,1 +1,4 @@
 // hook file for ntpd/src/daemon/spawn/mod.rs: declares the per-property harness modules
+#[cfg(any(verif_all, verif_c36))]
+#[path = "/verif/harness/ntpd/c36.rs"]
+mod c36;
